@@ -41,7 +41,8 @@ func (e *E1) AddLateValidator(ctx sdk.Context, power int64) Val {
 	var infos []*valsettypes.ExternalChainInfo
 	var fees []treasurytypes.RelayerFeeSetting_FeeSetting
 	for _, c := range o.Chains {
-		infos = append(infos, &valsettypes.ExternalChainInfo{ChainType: "evm", ChainReferenceID: c, Address: v.EthAddr.Hex(), Pubkey: v.EthAddr.Bytes()})
+		ca := crypto.PubkeyToAddress(e.KeyFor(v, c).PublicKey)
+		infos = append(infos, &valsettypes.ExternalChainInfo{ChainType: "evm", ChainReferenceID: c, Address: ca.Hex(), Pubkey: ca.Bytes()})
 		fees = append(fees, treasurytypes.RelayerFeeSetting_FeeSetting{Multiplicator: math.LegacyMustNewDecFromStr("1.10"), ChainReferenceId: c})
 	}
 	must(e.Valset.AddExternalChainInfo(ctx, v.Val, infos))
